@@ -9,6 +9,11 @@ package sync
 
 //@ pure chainSpacing(bt) = forall h uint64 :: chainAt(h).Height() == h && chainAt(h+1).Time() >= chainAt(h).Time() && chainAt(h+1).Time() - chainAt(h).Time() <= bt
 
+// the same spacing in closed form: two chain headers n heights apart are at most n block times apart
+// (equivalent to chainSpacing by induction on the distance; the induction is not machine-checked, the
+// near-tail retention clause below takes the closed form as its hypothesis)
+//@ pure chainSpacingSum(bt) = forall a uint64, h uint64 @ chainAt(a), chainAt(h) :: a <= h ==> chainAt(h).Time() - chainAt(a).Time() <= (h - a) * bt
+
 //@ func (*Parameters).Validate(p)
 //@   props C16
 //@   modifies Parameters.hash
@@ -36,9 +41,11 @@ package sync
 //@   requires storeHeightBound <= head.Height()
 //@   modifies ghost:storeLow
 //@   ensures [C16] inchain: result1 == nil ==> oldTail.Height() <= result0 && result0 <= head.Height()
-//@   ensures [C16] retention: result1 == nil && chainSpacing(s.Params.blockTime) && oldTail == chainAt(oldTail.Height()) && head == chainAt(head.Height()) ==> forall h uint64 :: oldTail.Height() <= h && h < result0 ==> chainAt(h).Time() < head.Time() - s.Params.PruningWindow
+//@   ensures [C16] retention-far: result1 == nil && chainSpacing(s.Params.blockTime) && oldTail == chainAt(oldTail.Height()) && head == chainAt(head.Height()) && head.Time() - s.Params.PruningWindow - oldTail.Time() >= s.Params.PruningWindow ==> forall h uint64 :: oldTail.Height() <= h && h < result0 ==> chainAt(h).Time() < head.Time() - s.Params.PruningWindow -- old tail at least one window behind the wanted one: estimated back from the head (finding F3)
+//@   ensures [C16] retention-near: result1 == nil && chainSpacingSum(s.Params.blockTime) && oldTail == chainAt(oldTail.Height()) && head.Time() - s.Params.PruningWindow - oldTail.Time() < s.Params.PruningWindow ==> forall h uint64 @ chainAt(h) :: oldTail.Height() <= h && h < result0 ==> chainAt(h).Time() < head.Time() - s.Params.PruningWindow -- old tail less than one window behind the wanted one: estimated forward from the old tail, which never overshoots, then scanned up header by header
 //@ loop 0:
 //@   invariant range: oldTail.Height() <= newTailHeight && newTailHeight <= head.Height()
+//@   invariant [C16] below-window: chainSpacingSum(s.Params.blockTime) && oldTail == chainAt(oldTail.Height()) && head.Time() - s.Params.PruningWindow - oldTail.Time() < s.Params.PruningWindow ==> forall h uint64 @ chainAt(h) :: oldTail.Height() <= h && h < newTailHeight ==> chainAt(h).Time() < head.Time() - s.Params.PruningWindow
 //@   decreases head.Height() - newTailHeight
 
 //@ func (*Syncer).tailHeight(s, ctx, oldTail, head)
@@ -263,6 +270,7 @@ package sync
 //@   ensures [C19] trusted-recorded: headCalls == old(headCalls) + 1 ==> lastTrusted == trustedHeadOf(opts)
 //@   ensures [C19] own-request-result: headCalls == old(headCalls) + 1 && result1 == nil ==> !result0.IsZero() && validated(result0) && (!trustedHeadOf(opts).IsZero() ==> passedVerify(trustedHeadOf(opts), result0))
 //@   ensures [C19] own-request-soft: headCalls == old(headCalls) + 1 && result1 != nil && !result0.IsZero() ==> asVerr(result1) != nil && asVerr(result1).SoftFailure
+//@   before close [C19] result-published-before-done: sh.resHead == cur(head) && sh.resErr == cur(err) && sh.headCh == nil -- joined callers read resHead/resErr after the done channel closes: both must be this flight's outcome (error included, nil included), and the slot must be free for the next flight
 //@   assumes result1 == nil ==> !result0.IsZero() && validated(result0) && (!trustedHeadOf(opts).IsZero() ==> passedVerify(trustedHeadOf(opts), result0)) -- a caller that joined a flight in progress reads that flight's result (written before the done channel is closed); sharing between racing flights is not decided
 //@   assumes result1 != nil && !result0.IsZero() ==> asVerr(result1) != nil && asVerr(result1).SoftFailure
 
